@@ -27,7 +27,9 @@ def homogeneous(kind_index, tier):
     range, all-same and cycling values; and the same with one element of
     another type at the first / middle / last position."""
     name, vals = HOMOG[kind_index]
-    counts = COUNTS + ([512, 1000, 2000] if tier == 'thorough' else [])
+    # interior size thresholds (bulk paths switch on at some count)
+    counts = COUNTS + [511, 512, 513, 1024, 1025] + (
+        [1000, 2000, 2048, 4096, 5000] if tier == 'thorough' else [])
     odd = [7 if name == 'bool' else True, None,
            'x' if name != 'str' else 1.5]
     for n in counts:
@@ -35,8 +37,8 @@ def homogeneous(kind_index, tier):
         if len(vals) > 1:
             yield [vals[i % len(vals)] for i in range(n)]
         yield {'k%04d' % i: vals[i % len(vals)] for i in range(n)}
-        if n and (n < 40 or n % 4 == 0):
-            for pos in sorted({0, n // 2, n - 1}):
+        if n and (n < 40 or n % 4 == 0 or n > 500):
+            for pos in sorted({0, min(1, n - 1), n // 2, n - 1}):
                 for o in odd:
                     arr = [vals[i % len(vals)] for i in range(n)]
                     arr[pos] = o
@@ -51,9 +53,16 @@ TAGBYTES = [0x62, 0x74, 0x73, 0x49, 0x6c, 0x6262, 0x7373, 0x4949,
             'long', 'I', 'iIi', 'SS', 'AF', 'V']
 
 
+WIDE_KEYS = ['\uffff', '\U00010000', '\ue000', '\U0010ffff', '\ud7ff', 'z']
+RECORD_KEYS = [['a'], ['a', 'b', 'c'], ['queue', 'reason', 'count', 'time'],
+               ['k' * 128, 'b'], ['k' * 129, 'b'], ['k' * 129, 'j' * 130],
+               ['k' * 200], ['é' * 64 + 'x', 'é' * 65], ['é' * 127 + 'ab'],
+               ['', 'a'], ['\uffff', '\U00010000']]
+
+
 def value_tasks(tier):
     out = [('scalars',), ('keys',), ('deep',), ('onehot',), ('mixed',),
-           ('shared',)]
+           ('shared',), ('records',)]
     # every nesting depth: up to 32 acceptance is required, beyond it
     # whatever is accepted must still round-trip (and equal the reference)
     out += [('depths', 1, 17), ('depths', 17, 33), ('depths', 33, 80),
@@ -101,6 +110,35 @@ def values(task, tier, seed=0):
         for t in A.TABLES:
             if t is not None:
                 yield t
+        # key pairs whose code-point order differs from their UTF-16
+        # code-unit order, both insertion orders, at both nesting positions
+        for a in WIDE_KEYS:
+            for b in WIDE_KEYS:
+                if a != b:
+                    yield {a: 1, b: 2}
+                    yield [{a: {b: 1, a: 2}}]
+                    yield {a + 'x': 1, b + 'x': 2, a: 3}
+    elif kind == 'records':
+        # arrays of records: n dicts with the same key set (what x-death and
+        # similar headers look like), over key sets that include names longer
+        # than the field-name limit, and with one record that differs
+        for keys in RECORD_KEYS:
+            for n in (1, 2, 3, 8):
+                rows = [{k: (i if j % 2 else 'v%d' % i)
+                         for j, k in enumerate(keys)} for i in range(n)]
+                yield rows
+                yield {'x-death': rows}
+                yield [list(rows)]
+                if n >= 2:
+                    odd = [dict(r) for r in rows]
+                    odd[-1]['extra'] = True
+                    yield odd
+                    odd = [dict(r) for r in rows]
+                    odd[0] = dict(reversed(list(odd[0].items())))
+                    yield odd
+                    odd = [dict(r) for r in rows]
+                    del odd[n // 2][keys[0]]
+                    yield odd
     elif kind == 'deep':
         for pattern in ('list', 'dict', 'alt', 'alt2'):
             for depth in (16, 31, 32):
